@@ -393,6 +393,10 @@ func Run(seed int64, n int, outDir string) error {
 			}
 		}
 	}
+	// real blocks: the mint as wired into the application (stored minter, epoch hook)
+	if err := runMintBlocks(r, cf, st); err != nil {
+		return err
+	}
 	// transfer-ban scenarios (fixed histories, every run)
 	if err := runBan(seed, cf, st); err != nil {
 		return err
@@ -401,4 +405,54 @@ func Run(seed int64, n int, outDir string) error {
 		return err
 	}
 	return st.Write(outDir)
+}
+
+// runMintBlocks runs real blocks with varied time steps and records, per block, the supplies and
+// the STORED minter before and after, so that persistence of the last-mint time is covered.
+func runMintBlocks(r *emit.Rand, cf *emit.CasesFile, st *emit.Stats) error {
+	h := apph.New(apph.Options{NumAccounts: 2, Balances: sdk.NewCoins(sdk.NewCoin(fee, sdkmath.NewInt(400_000_000_000_000)), sdk.NewCoin(bond, sdkmath.NewInt(50_000_000_000_000)))})
+	defer h.Close()
+	stored := func(ctx sdk.Context) string {
+		m, err := h.App.MintKeeper.Minter.Get(ctx)
+		if err != nil || len(m.Data) != 8 {
+			return emit.None()
+		}
+		return emit.Some(emit.ZI(int64(binary.BigEndian.Uint64(m.Data))))
+	}
+	var prevMint *int64
+	steps := []time.Duration{time.Second, 30 * time.Second, 59 * time.Second, 61 * time.Second, 61 * time.Second, 2 * time.Minute, time.Hour, 61 * time.Second, 7 * time.Second, 90 * time.Second}
+	for i := 0; i < 36; i++ {
+		ctx := h.Ctx()
+		f0, b0 := h.Supply(ctx, fee).BigInt(), h.Supply(ctx, bond).BigInt()
+		s0 := stored(ctx)
+		p, err := h.App.LiquidityincentiveKeeper.Params.Get(ctx)
+		if err != nil {
+			return err
+		}
+		ratio, _ := sdkmath.LegacyNewDecFromStr(p.StakingRewardRatio)
+		dt := steps[r.Intn(len(steps))] + time.Duration(r.Intn(1000))*time.Millisecond
+		if _, err := h.NextBlock(dt); err != nil {
+			return fmt.Errorf("block failed: %w", err)
+		}
+		ctx = h.Ctx()
+		f1, b1 := h.Supply(ctx, fee).BigInt(), h.Supply(ctx, bond).BigInt()
+		s1 := stored(ctx)
+		df, db := new(big.Int).Sub(f1, f0), new(big.Int).Sub(b1, b0)
+		nowNs := new(big.Int).SetInt64(h.Time.UnixNano())
+		cf.Add(fmt.Sprintf("CMintBlock {| bk_fee := %s; bk_bond := %s; bk_stored := %s; bk_now_ns := %s; bk_ratio := %s; bk_dfee := %s; bk_dbond := %s; bk_stored' := %s; bk_prev_mint := %s |}",
+			emit.Z(f0), emit.Z(b0), s0, emit.Z(nowNs), emit.Z(ratio.BigInt()), emit.Z(df), emit.Z(db), s1, optZ(prevMint)))
+		info := map[string]any{"kind": "mint-block", "dt": dt.String(), "fee_minted": df.String(), "bond_minted": db.String(), "stored_before": s0, "stored_after": s1}
+		st.Info(info)
+		st.Evaluations++
+		if df.Sign() > 0 || db.Sign() > 0 {
+			st.Count("mint-block:minted")
+			st.Nontriv("mint-block/" + dt.String())
+			st.Sample(info)
+			t := h.Time.Unix()
+			prevMint = &t
+		} else {
+			st.Count("mint-block:nothing")
+		}
+	}
+	return nil
 }
